@@ -398,8 +398,10 @@ section EndpointKeys
 open Keys
 
 /-- The key an endpoint is created under is a function of the client source, the routing scope
-and — for destination-bound flows only — the destination: two packets agree on the key iff they
-agree on those. -/
+and — for destination-bound flows only — the destination: two packets *of the same
+destination-bound / source-only class* (`hs`) agree on the key iff they agree on those.  What
+happens when the class changes between packets of one flow is `handlePkt`'s business:
+`same_flow_same_endpoint` below. -/
 theorem key_same_source_same_key (dom force : Bool) (sc1 sc2 : Scope) (d1 d2 : Decision)
     (hs : dialSymmetric dom force d1 = dialSymmetric dom force d2) :
     dialKey dom sc1 force d1 = dialKey dom sc2 force d2 ↔
@@ -585,7 +587,11 @@ example : ∃ s : St, 0 < s.neps ∧ (s.eps 0).dead = true :=
 window.**  Right after the epoch bump of `InvalidateDialerNetworkType(d)` — before any endpoint has
 been retired — an endpoint of dialer `d` that was of the current generation and has neither sent
 nor received is refused by `GetOrCreate` (it dials a replacement or fails) and by `Get`, although
-it is still alive and pooled. -/
+it is still alive and pooled.  The exception is part of the code's rule and of `usable`: a handler
+that already holds the pointer and completes a write (or an accepted reply arrives) makes the
+endpoint an established session, which is handed out again and which `Invalidate` no longer
+retires — "before carrying traffic" is evaluated at hand-out time (`ep_handout_iff_usable`, which
+holds in every state, gives the exact condition along any history). -/
 theorem ep_stale_generation_not_handed_out (s : St) (d c e : Nat)
     (hc : s.curCtr d = some c) (he : (s.eps e).ctr = c) (hf : (s.eps e).failed = false)
     (hg : (s.eps e).gen = s.ctrVal c) (hs : (s.eps e).survives = false)
@@ -635,9 +641,10 @@ theorem ep_transport_closed_once_with_endpoint (ops : List Op) (e : Nat) (he : e
 example : ((run init [.goc 0 false 1000 none none 0 .ok, .write 0 .err, .close 0, .remove 0 0]).eps 0).connCloses = 1 := by
   decide
 
-/-- Closing an endpoint releases exactly the tuples it registered (one `BeginRelease` /
-`FinalizeRelease` round on its owner's tracker) and its drain ticket, and a second `Close` does
-nothing. -/
+/-- A second `Close` does nothing, and the first one releases exactly the tuples the endpoint
+registered, in one `BeginRelease` / `FinalizeRelease` round on its owner's tracker.  (The drain
+ticket is released by the same `closeEp` — see `EP.releaseDrain` — but that is not part of this
+statement; the tie compares both drain counts after every operation.) -/
 theorem ep_close_releases_once (s : St) (e : Nat) :
     closeEp (closeEp s e) e = closeEp s e ∧
     ((s.eps e).closed = false → (s.eps e).csClosed = false → ∀ o, (s.eps e).owner = some o →
